@@ -16,6 +16,7 @@ pub mod c12;
 pub mod c13;
 pub mod c14;
 pub mod c15;
+pub mod c16;
 pub mod c17;
 pub mod c19;
 pub mod c21;
@@ -42,6 +43,7 @@ pub const REGISTRY: &[(&str, RunFn)] = &[
     ("C13", c13::run),
     ("C14", c14::run),
     ("C15", c15::run),
+    ("C16", c16::run),
     ("C17", c17::run),
     ("C19", c19::run),
     ("C21", c21::run),
